@@ -437,8 +437,13 @@ func runE1(r *vk.Run, scratch string, budget time.Duration) *e1stats {
 						ka, kb := a[op].Key, b[op].Key
 						va, vb := fmt.Sprint(a[op].Viol), fmt.Sprint(b[op].Viol)
 						if ka != kb || (len(a[op].Viol) == 0) != (len(b[op].Viol) == 0) {
-							vk.Fatalf("e1 %s: state key too coarse: %v and %v share a key but diverge on %s: %q %s vs %q %s", cfg.name,
+							msg := fmt.Sprintf("e1 %s: state key too coarse: %v and %v share a key but diverge on %s: %q %s vs %q %s", cfg.name,
 								opNames(frontier[sh.rep]), opNames(sh.hist), ops[op], ka, va, kb, vb)
+							if st.violations > 0 {
+								r.Note("%s", msg) // on a tree that already violates the property the abstraction need not hold
+								break
+							}
+							vk.Fatalf("%s", msg)
 						}
 					}
 					mergeChecks++
